@@ -290,7 +290,7 @@ bool Hist::opDeclarePoint() {
     bool dup = !labels.empty() && rng.chance(n > 0 ? 15 : (wild ? 15 : 0));   // duplicate declaration on an empty data set is undocumented -> wild only
     std::string name = dup ? labels[rng.below(labels.size())] : freshName("P", labels);
     bool padded = !dup && rng.chance(15);
-    std::string arg = padded ? name + std::string((size_t)rng.range(1, 3), ' ') : name;
+    std::string arg = padded ? name + std::string((size_t)rng.range(1, 9), ' ') : name;   /* up to more blanks than characters */
     log.pre("point"); Outcome oc; VF_TRY(oc, obj->point(arg));
     log.ev("declare_point", "name=\"" + esc(arg) + "\" frames=" + std::to_string((unsigned long long)n), oc); bump("op:declare_point");
     if (!wild) {
@@ -325,7 +325,7 @@ bool Hist::opDeclareChannel() {
     bool dup = !labels.empty() && rng.chance(n > 0 ? 15 : (wild ? 15 : 0));
     std::string name = dup ? labels[rng.below(labels.size())] : freshName("A", labels);
     bool padded = !dup && rng.chance(15);
-    std::string arg = padded ? name + std::string((size_t)rng.range(1, 3), ' ') : name;
+    std::string arg = padded ? name + std::string((size_t)rng.range(1, 9), ' ') : name;   /* up to more blanks than characters */
     log.pre("analog"); Outcome oc; VF_TRY(oc, obj->analog(arg));
     log.ev("declare_channel", "name=\"" + esc(arg) + "\" frames=" + std::to_string((unsigned long long)n), oc); bump("op:declare_channel");
     if (!wild && chOverGaps) { if (!oc.threw) offSpec = true; }
